@@ -31,6 +31,14 @@ let dump v = Jvtext.string_of_jv (canon v)
 
 let parse_mut (s : string) : step list * mutop =
   let n = String.length s in
+  if n >= 2 && s.[0] = '@' then begin
+    (* a process-wide setting: addresses no node *)
+    let arg = String.sub s 2 (n - 2) in
+    match s.[1] with
+    | 'H' -> ([], MGlobalHash (z_of_string arg))
+    | 'F' -> ([], MGlobalFormat (if arg = "-" then None else Some (bytes_of_hex arg)))
+    | _ -> failwith "mut @"
+  end else
   let pos = ref 0 in
   let steps = ref [] in
   let ishex c = (c >= '0' && c <= '9') || (c >= 'a' && c <= 'f') in
@@ -154,8 +162,11 @@ let run line =
        let (tc3, _) = nt_copy ta' n5 in
        let k = Printf.sprintf "K 0 %s %s %s" (e ta' tc3) (e tc3 ta') (dump (erase tc3)) in
        String.concat " | " [head; m1; m2; k; "D1 1 " ^ dump a'; "D2 1 " ^ dump c2; "live=0"])
-  | ["H"; sa; sha; sb; shb] ->
+  | "H" :: sa :: sha :: sb :: shb :: rest when List.length rest <= 1 ->
+    let shg = (match rest with [x] -> x | _ -> "-") in
     let a = Jvtext.jv_of_string sa and b = Jvtext.jv_of_string sb in
+    (* the steps after the copy address no tree: only settings can succeed *)
+    let (_, og) = run_history (parse_hist shg) JNull in
     let (a', oa) = run_history (parse_hist sha) a in
     let (b', ob) = run_history (parse_hist shb) b in
     let (ta, n1) = build a' Z0 in
@@ -164,10 +175,11 @@ let run line =
     let head = Printf.sprintf "H %s %s %s %s %s %s %s %s" (oks_text oa) (oks_text ob) (dump a') (dump b')
         (e ta tb) (e tb ta) (e ta ta) (e tb tb) in
     let k = match deep_copy_root a' with
-      | None -> "K -1 EINVAL"
+      | None -> Printf.sprintf "K -1 EINVAL %s %s" (oks_text og) (e ta tb)
       | Some _ ->
         let (tc, _) = nt_copy ta n2 in
-        Printf.sprintf "K 0 %s %s %s %d 6 %s %s" (e ta tc) (e tc ta) (dump (erase tc)) (inter (addrs ta) (addrs tc)) (e tc tb) (e tb tc) in
+        Printf.sprintf "K 0 %s %s %s %d %s %s %s %s 6 %s %s" (e ta tc) (e tc ta) (dump (erase tc)) (inter (addrs ta) (addrs tc))
+          (oks_text og) (e ta tc) (e tc ta) (e ta tb) (e tc tb) (e tb tc) in
     String.concat " | " [head; k; "live=0"]
   | ["Y"; sa; rules; tags] ->
     let a = Jvtext.jv_of_string sa in
